@@ -18,6 +18,12 @@ func zzDecl(form, ka, kb, sp int) (text string, lo, hi uint64, loHuge, hiHuge, h
 	if sp == 1 {
 		pad = " "
 	}
+	if sp == 2 {
+		// any one of the white-space bytes a declaration may contain (blank, tab, either line-end byte)
+		c := rt.Byte("padws")
+		rt.Assume(rt.Or(rt.Or(c == ' ', c == '\t'), rt.Or(c == '\n', c == '\r')))
+		pad = string([]byte{c})
+	}
 	var a, b string
 	if rt.ParamOr("zeros", 0) > 0 {
 		// 18..20 zeros in front of the symbolic digits: the value is the small number
@@ -82,6 +88,11 @@ func zzDecl(form, ka, kb, sp int) (text string, lo, hi uint64, loHuge, hiHuge, h
 func zzLiteralOfCount(typ, c int) string {
 	s := ""
 	for i := 0; i < c; i++ {
+		if typ != zzA && i == c-1-rt.ParamOr("varpos", -5) {
+			// one element is a variable (a list-valued one for L): it counts like any other element
+			s += " vx"
+			continue
+		}
 		switch typ {
 		case zzL:
 			// children with (satisfied) declarations of their own
